@@ -1040,3 +1040,8 @@ mod tests {
         assert_eq!(iter.collect::<BA3>(), BA3::truncate_from(4_u128));
     }
 }
+
+#[cfg(kani)]
+mod verif_kani {
+    include!(concat!(env!("IPA_VERIF_DIR"), "/kani/boolean_array.rs"));
+}
